@@ -82,7 +82,7 @@ fn run_slices(ctx: &Ctx) -> CheckResult {
 
 /// Hashes that come from the generator and from the text parser go through the same checks.
 fn run_generated(ctx: &Ctx) -> CheckResult {
-    let cases = ctx.tier.pick(400u32, 8_000);
+    let cases = ctx.tier.pick(1200u32, 12_000);
     for va in ctx.api.variants() {
         let v = va.v();
         ctx.pt_run(
